@@ -56,6 +56,41 @@ def directed_dynamic(rnd, g: defs.Gen):
     return defs.hoist(tree, rnd, p=1.0, top_align=False, mixed=True)
 
 
+def directed_bits(rnd, g: defs.Gen):
+    """a packed outer structure with 1-3 small leading members, then a named nested structure (loaded with align=True) in which runs of
+    bit-fields share storage units (so that the later fields of a run have no layout offset of their own) and are followed by members
+    with a layout offset, then a trailing member: the shape in which a reader that aligns the unplaced bit-fields on the stream
+    position must still find the next placed member.  -> (plan, tree2)"""
+    S = lambda n: ("sc", n)  # noqa: E731
+    child = []
+    for _ in range(rnd.randint(0, 2)):
+        child.append({"name": g.name(), "ty": S(rnd.choice(["uint8", "char", "uint16", "int24"])), "bits": None})
+    for _ in range(rnd.randint(1, 3)):
+        base = rnd.choice(["uint8", "uint16", "uint16", "uint32", "uint32", "uint64", "int16", "int32"])
+        width = {"uint8": 8, "uint16": 16, "int16": 16, "uint32": 32, "int32": 32, "uint64": 64}[base]
+        left = width
+        for _k in range(rnd.randint(2, 4)):
+            if left <= 0:
+                break
+            b = rnd.randint(1, max(1, min(left, width // 2)))
+            child.append({"name": g.name(), "ty": S(base), "bits": b})
+            left -= b
+        for _k in range(rnd.randint(0, 2)):
+            child.append({"name": g.name(), "ty": S(rnd.choice(["uint8", "uint16", "uint32", "uint64", "char", "int24"])), "bits": None})
+    ty = ("struct", child)
+    if rnd.random() < 0.3:
+        ty = ("arr", ty, ("fixed", 2))
+    outer = [{"name": g.name(), "ty": S(rnd.choice(["uint8", "char", "int24", "uint8", "uint16"])), "bits": None} for _ in range(rnd.randint(1, 3))]
+    outer.append({"name": g.name(), "ty": ty, "bits": None})
+    outer.append({"name": g.name(), "ty": S(rnd.choice(["uint8", "uint16", "uint32"])), "bits": None})
+    tree = ("struct", outer)
+    for _ in range(16):
+        plan, tree2 = defs.hoist(tree, rnd, p=1.0, top_align=False, mixed=True)
+        if is_mixed(plan) and len(plan) == 2 and plan[0][2] and not plan[1][2]:
+            return plan, tree2
+    return defs.hoist(tree, rnd, p=1.0, top_align=False, mixed=True)
+
+
 def load_plan(sess: impl.Session, plan, *, compiled):
     """load every definition of a hoisting plan on the session's instance; -> view of the last one (T)"""
     V = None
